@@ -191,6 +191,14 @@ def gen_model(rnd):
                 branch=rnd.choice(['ads', 'ads', 'des']))
 
 
+def model_via(m):
+    """'ctor' (values handed to the model constructor) or 'assign' (attributes set on the instance, as ModelIsotherm's fit does);
+    derived from the spec itself so that the random stream of the generators is unchanged"""
+    if m.get('via'):
+        return m['via']
+    return 'ctor' if random.Random(repr(sorted(m['params'].items()))).random() < 0.3 else 'assign'
+
+
 def gen_spec(rnd, domain='json', cls=None, blank_keys=True, mat_nested=True):
     cls = cls or rnd.choice(['base', 'point', 'point', 'point', 'model'])
     mprops = {}
@@ -224,7 +232,15 @@ def build(spec):
     if spec['cls'] == 'model':
         from pygaps.modelling import get_isotherm_model
         m = spec['model']
-        mi = get_isotherm_model(m['name'], parameters=dict(m['params']), pressure_range=m['prange'], loading_range=m['lrange'], rmse=m['rmse'])
+        if model_via(m) == 'ctor':
+            mi = get_isotherm_model(m['name'], parameters=dict(m['params']), pressure_range=m['prange'], loading_range=m['lrange'], rmse=m['rmse'])
+        else:
+            # the way a fit fills a model in: the instance first, then the parameters, the ranges and the fit error as ATTRIBUTES
+            # (the constructor is then not the only code that has seen the values: a constructor that normalises a value is visible)
+            mi = get_isotherm_model(m['name'])
+            for p in m['params']:
+                mi.params[p] = m['params'][p]
+            mi.pressure_range, mi.loading_range, mi.rmse = m['prange'], m['lrange'], m['rmse']
         return pygaps.ModelIsotherm(model=mi, branch=m['branch'], **kw)
     d = spec['data']
     br = d['branch']
